@@ -85,7 +85,12 @@ def gen_index(rng, table, used_names, cols=None):
     cols = cols or rng.sample(names, min(k, len(names)))
     nm = _fresh(rng, [], used_names, "ix_%s_%s_" % (table["name"], "_".join(cols)[:12]))
     ix = {"name": nm, "cols": cols, "unique": rng.random() < 0.3}
-    if rng.random() < 0.12:
+    flag_name = "ix_%s_%s" % (table["name"], cols[0])
+    if len(cols) == 1 and flag_name not in used_names and rng.random() < 0.5:
+        # declared with the column-level flag: Column(index=True[, unique=True]) -> Index("ix_<table>_<column>")
+        ix["name"] = flag_name
+        ix["flag"] = True
+    elif rng.random() < 0.12:
         ix["desc"] = True
     return ix
 
@@ -239,6 +244,15 @@ def candidate_mutations(rng, schema, odd=False):
     if not nc["nullable"] and nc["default"] is None:
         pass  # fine in batch mode; SQLite cannot ALTER ADD a NOT NULL column without default
     out.append(({"m": "addColumn", "t": tn, "c": nc["name"], "col": nc}, mutated(lambda s: tbl(s, tn)["cols"].append(nc))))
+    # a new column declared with index=True (/ unique=True): add_column + add_index (C06 pairs only, two ops)
+    nc2 = gen_col(rng, _fresh(rng, CNAMES, cn_used | {nc["name"]}, "c"), odd)
+    fix = {"name": "ix_%s_%s" % (tn, nc2["name"]), "cols": [nc2["name"]], "unique": rng.random() < 0.4, "flag": True}
+    if fix["name"] not in used:
+        def add_ixcol(s, nc2=nc2, fix=fix):
+            tbl(s, tn)["cols"].append(nc2)
+            tbl(s, tn)["ixs"].append(fix)
+
+        out.append(({"m": "addIndexedColumn", "t": tn, "c": nc2["name"], "col": nc2, "ix": fix}, mutated(add_ixcol)))
     # dropColumn
     free = [c["name"] for c in t0["cols"] if not col_in_use(schema, tn, c["name"])]
     if free and len(t0["cols"]) > 1:
